@@ -152,4 +152,63 @@ def detFromPowerSums (n : Nat) (t : Array GRat) : GRat := Id.run do
     e := e.push (s * GRat.inv ⟨k, 0⟩)
   return e.getD n 0
 
+/-! ## the relative stopping rule of the loops in exact arithmetic (clause `krylov-batch-unequal-exhaustion`)
+
+`arnoldi_fact` continues while `norm > tol * H[1, 0]`, `lanczos_fact` while `subdiag[i - 1] > tol * subdiag[1]` (both
+relative to the FIRST residual norm), for ANY member of the batch.  In exact arithmetic the normalised residual norms are
+`β_j = ‖q_{j+1}‖ / ‖q_j‖` for the un-normalised vectors, and `‖q_k‖²` is the `k`-th pivot of Gaussian elimination (no
+pivoting) of the Gram matrix `G[a][b] = ⟨A^a v, A^b v⟩` of the Krylov vectors (`= det G_{k+1} / det G_k`).  Everything is
+rational arithmetic on the inputs — which are exact rationals also for float payloads (a double is a dyadic rational). -/
+
+/-- `v, A v, …, A^m v` -/
+def krylovVecs (n : Nat) (A : Array (Array GRat)) (v : Vec) (m : Nat) : Array Vec := Id.run do
+  let mut out : Array Vec := #[v]
+  let mut y := v
+  for _ in [0:m] do
+    y := matVec n A y
+    out := out.push y
+  return out
+
+/-- squared norms `‖q_k‖²`, `k = 0 … m`, of the un-normalised Arnoldi vectors = pivots of the Gram matrix of the Krylov
+vectors (`0` from the first exactly vanishing one on) -/
+def gramPivots (K : Array Vec) : Array Rat := Id.run do
+  let m := K.size
+  let mut G : Array (Array GRat) := Array.ofFn (n := m) fun a => Array.ofFn (n := m) fun b =>
+    dotc (K.getD a.val #[]) (K.getD b.val #[])
+  let mut piv : Array Rat := #[]
+  let mut dead := false
+  for k in [0:m] do
+    let p := ((G.getD k #[]).getD k 0)
+    if dead || p.re == 0 then
+      dead := true
+      piv := piv.push 0
+    else
+      piv := piv.push p.re
+      let pinv := GRat.inv p
+      let rowk := G.getD k #[]
+      for r in [k+1:m] do
+        let fac := (G.getD r #[]).getD k 0 * pinv
+        if fac != 0 then
+          G := G.setIfInBounds r (Array.zipWith (fun x y => x - fac * y) (G.getD r #[]) rowk)
+  return piv
+
+/-- **number of steps a single start vector runs** under the relative rule with tolerance `tol` (`tol2 = tol²`) and cap
+`cap = min(max_iters, n)`: the least `s ≥ 1` with `s = cap`, or `β_{s-1} ≤ tol β_0`; `0` for a zero start vector -/
+def stopStep (n : Nat) (A : Array (Array GRat)) (v : Vec) (cap : Nat) (tol2 : Rat) : Nat := Id.run do
+  if visZero v then return 0
+  let p := gramPivots (krylovVecs n A v cap)
+  let g (k : Nat) : Rat := p.getD k 0
+  for s in [1:cap] do
+    -- after step `s`: continue iff β²_{s-1} > tol² β²_0, i.e. p_s p_0 > tol² p_1 p_{s-1}
+    if !(g s * g 0 > tol2 * g 1 * g (s - 1)) then return s
+  return cap
+
+/-- the decidable predicate of the clause `krylov-batch-unequal-exhaustion`: the columns of the operand stop at
+different steps when run alone (so the batched loop keeps stepping a finished member) -/
+def unequalExhaustion (n : Nat) (A : Array (Array GRat)) (cols : List Vec) (cap : Nat) (tol2 : Rat) : Bool × List Nat :=
+  let steps := cols.map fun v => stopStep n A v cap tol2
+  (match steps with
+   | [] => false
+   | s :: rest => rest.any (· != s), steps)
+
 end KrylovExact
